@@ -4,9 +4,9 @@ import CifModel.Spec.DataModel
 /-
   Property C04 — the managed CIF behaves as the documented data model under any API history.
 
-  Invariant part (proved for every op but one, see `C04_inv_step_partial`), corollaries about the scalar loop / uniqueness /
+  Invariant part (`C04_inv_step`, `C04_inv_reachable`: every op), corollaries about the scalar loop / uniqueness /
   destroy / independence proved directly on the model, refinement to Spec/DataModel stated (`C04_refines_full`) and proved
-  for the ops listed at `C04_refines_partial`.  Open findings F30 and F32 are exhibited as `decide`d counterexamples.
+  for the ops listed at `C04_refines_partial`.  Open finding F30 is exhibited as a `decide`d counterexample (F34, fixed, as a statement about the pinned variant).
 -/
 namespace CifModel
 open Store Store.World Gen.ErrCodes
@@ -38,14 +38,10 @@ theorem C04_inv_sql (d : Db) (h : Inv d) :
    fun _ _ _ he => h.bumpRowNum _ _ he, fun _ _ => h.resetRowNum _ _, fun _ _ => h.removeItem _ _, fun _ _ => h.destroyLoop _ _,
    fun _ => h.prune _, fun _ _ _ => h.removePacket _ _ _⟩
 
-/-- FULL: every op of a history preserves the invariant of every CIF -/
-def C04_inv_step_full : Prop := ∀ (w : World) (op : Op), WInv w → WInv (step w op).1
-
-/-- Proved for every op and every argument (valid, invalid, duplicate names; NULL category; empty or foreign-item packets;
-    live and stale handles; inside and outside an iterator's transaction) EXCEPT cif_loop_set_category
-    (`Db.setCategory`'s preservation of "at most one scalar loop" is not proved; the op is covered by the correspondence
-    run and the dump-level oracle only). -/
-theorem C04_inv_step_partial (w : World) (op : Op) (hop : ∀ l cat, op ≠ .setCat l cat) (h : WInv w) : WInv (step w op).1 := by
+/-- Every op of a history — every argument (valid, invalid, duplicate names; NULL category; empty or foreign-item packets),
+    live and stale handles, inside and outside an iterator's transaction — preserves the invariant of every CIF (content and
+    every snapshot a rollback could restore). -/
+theorem C04_inv_step (w : World) (op : Op) (h : WInv w) : WInv (step w op).1 := by
   cases op with
   | cifNew =>
     intro c s hs
@@ -170,7 +166,10 @@ theorem C04_inv_step_partial (w : World) (op : Op) (hop : ∀ l cat, op ≠ .set
       · exact h
       · exact (h.setCif _ _ (destroyLoop_invS (h.live (liveL_liveC hl)) e.h)).of_cifs rfl
   | getCat l => simp only [step]; split <;> exact h
-  | setCat l cat => exact absurd rfl (hop l cat)
+  | setCat l cat =>
+    simp only [step]; split
+    · exact h
+    · rename_i e s hl; exact (h.setCif _ _ (setCategory_invS (h.live (liveL_liveC hl)) e.h cat)).of_cifs rfl
   | names l =>
     simp only [step]; split
     · exact h
@@ -208,14 +207,12 @@ theorem C04_inv_step_partial (w : World) (op : Op) (hop : ∀ l cat, op ≠ .set
     · exact h
     · rename_i e s hl; exact (h.setCif _ _ (abortIter_invS (h.live (liveI_liveC hl)))).of_cifs rfl
 
-/-- hence every state reachable by a history without cif_loop_set_category satisfies the invariant … -/
-theorem C04_inv_reachable_partial : ∀ (ops : List Op) (w : World), (∀ op ∈ ops, ∀ l cat, op ≠ .setCat l cat) → WInv w →
-    WInv (run w ops).1
-  | [], w, _, h => h
-  | op :: ops, w, hops, h => by
+/-- hence every state reachable by any history satisfies the invariant … -/
+theorem C04_inv_reachable : ∀ (ops : List Op) (w : World), WInv w → WInv (run w ops).1
+  | [], w, h => h
+  | op :: ops, w, h => by
     unfold run
-    exact C04_inv_reachable_partial ops _ (fun o ho => hops o (List.mem_cons_of_mem _ ho))
-      (C04_inv_step_partial w op (hops op List.mem_cons_self) h)
+    exact C04_inv_reachable ops _ (C04_inv_step w op h)
 
 /-- … in particular the hypothesis of `C05_atomic` (unique loop keys) -/
 theorem C04_inv_gives_loop_keys (w : World) (h : WInv w) : ∀ c s, w.cifs.getD c none = some s → LoopPK s.db :=
@@ -239,11 +236,10 @@ theorem scalar_category_cannot_be_given (s : Store) (l : LH) :
     setCategory s l (some []) = (s, l, .error CIF_RESERVED_LOOP) := by
   simp [setCategory, catReserved]
 
-/-- … nor TAKEN by naming another category: a handle that knows its loop as the scalar loop refuses every non-NULL category.
-    (With NULL the C — and so the model — lets it through: open finding F32, `C04_cex_F32`.) -/
-theorem scalar_category_cannot_be_taken_partial (s : Store) (l : LH) (c : Str) (hl : l.category = some []) :
-    setCategory s l (some c) = (s, l, .error CIF_RESERVED_LOOP) := by
-  simp [setCategory, catReserved, hl]
+/-- … nor TAKEN: a handle that knows its loop as the scalar loop refuses every category, NULL included (fix 95b7b25) -/
+theorem scalar_category_cannot_be_taken (s : Store) (l : LH) (cat : Option Str) (hl : l.category = some []) :
+    setCategory s l cat = (s, l, .error CIF_RESERVED_LOOP) := by
+  cases cat <;> simp [setCategory, catReserved, hl]
 
 /-- removing a loop's last item removes the loop: with one item left, the statement executed is DESTROY_LOOP_SQL -/
 theorem remove_last_item_removes_loop (d : Db) (cid ln : Nat) (k : Str) (hsz : d.loopSize cid k = some (ln, 1)) :
@@ -317,11 +313,14 @@ theorem C04_cex_F30 :
     (((({ category := some (a!"cat"), names := [a!"_a", a!"_b"], packets := [] } : Loop).specAddPacket id [(a!"_a", .na)]).toOption.bind
         (fun l => l.specRemoveItem id (a!"_a"))).map (fun l => l.packets.length)) = some 1 := by decide
 
-/-- F32: set_category(scalar loop, NULL) succeeds in the model (= the C); the documented model refuses it -/
-theorem C04_cex_F32 :
+/-- F34 (fixed by 95b7b25), about the PINNED variant: set_category(scalar loop, NULL) succeeded and took the reserved category
+    away; the documented model refuses it — and so does the current model -/
+theorem C04_cex_F34_pinned :
+    World.codeOf (setCategoryPinned (setValue (createBlock {} (some (nm (a!"b")))).1 { id := 1, code := a!"b", isBlock := true } (some (nm (a!"_s"))) (some .na)).1
+        { cid := 1, loopNum := 0, category := some [] } none).2.2 = CIF_OK ∧
+    (({ category := some [], names := [a!"_s"], packets := [[.na]] } : Loop).specSetCategory none).toOption.isNone = true ∧
     ((run {} [.cifNew, .mkBlock 0 (some (nm (a!"b"))), .setVal 0 (some (nm (a!"_s"))) (some .na), .itemLoop 0 (some (nm (a!"_s"))),
-        .setCat 0 none]).2.map (·.rc)) = [some 0, some 0, some 0, some 0, some 0] ∧
-    (({ category := some [], names := [a!"_s"], packets := [[.na]] } : Loop).specSetCategory none).toOption.isNone = true := by decide
+        .setCat 0 none]).2.map (·.rc)) = [some 0, some 0, some 0, some 0, some CIF_RESERVED_LOOP] := by decide
 
 -- non-vacuity of the invariant theorems: a history with failing and succeeding ops reaches a non-trivial state
 example : countsAfter [.cifNew, .mkBlock 0 (some (nm (a!"b"))), .mkLoop 0 none [nm (a!"_a"), nm (a!"_b")],
